@@ -35,7 +35,14 @@ OrgQ  == {"Dorgqr", "Dorg2r", "Dorglq", "Dorgl2"}
 OrmQ  == {"Dormqr", "Dorm2r", "Dormlq", "Dorml2"}
 Tri   == {"Dtrtri", "Dtrti2", "Dtrtrs"}
 Refl  == {"Dlarft", "Dlarfb", "Dlarf"}
-LapackRoutines == LU \cup Chol \cup QRf \cup OrgQ \cup OrmQ \cup Tri \cup Refl
+\* drivers and computational routines whose slice lengths depend on job flags and on max/min of the dimensions
+SqN   == {"Dsyev", "Dsytrd", "Dorgtr", "Dgeev", "Dtrcon", "Dgecon", "Dpocon", "Dlansy"}   \* one n x n matrix a, dimension n
+Hess  == {"Dgehrd", "Dorghr"}                                                            \* n, ilo, ihi
+GeMN  == {"Dgesvd", "Dgeqp3", "Dgebrd", "Dlacpy", "Dlaset", "Dlange", "Dlantr"}           \* m x n matrix a, dimensions m, n
+BandS == {"Dpbtrs", "Dtbtrs", "Dpbtrf"}                                                   \* band matrix with kd off-diagonals
+TriD  == {"Dgtsv", "Dptsv"}                                                               \* tridiagonal solves
+Drv   == SqN \cup Hess \cup GeMN \cup BandS \cup TriD \cup {"Dgels", "Dorgbr", "Dormbr", "Dormhr"}
+LapackRoutines == LU \cup Chol \cup QRf \cup OrgQ \cup OrmQ \cup Tri \cup Refl \cup Drv
 
 \* flag kinds and their legal codes.  side: 0 Left 1 Right; trans: 0 NoTrans 1 Trans 2 ConjTrans
 \* ("trans2": ConjTrans is illegal for the real routine); uplo: 0 Upper 1 Lower; diag: 0 NonUnit 1 Unit;
@@ -49,9 +56,29 @@ FlagKinds(r) ==
       [] r = "Dlarft" -> <<"direct", "storev">>
       [] r = "Dlarfb" -> <<"side", "trans2", "direct", "storev">>
       [] r = "Dlarf" -> <<"side">>
+      [] r = "Dgels" -> <<"trans3">>
+      [] r = "Dgesvd" -> <<"svdjobu", "svdjobvt">>            \* jobU, jobVT: 0 All 1 Store 2 None (Overwrite is not coded in gonum: not in the grid)
+      [] r = "Dsyev" -> <<"evjob", "uplo">>                \* jobz: 0 EVNone 1 EVCompute
+      [] r \in {"Dsytrd", "Dorgtr", "Dpocon", "Dpbtrs", "Dpbtrf"} -> <<"uplo">>
+      [] r = "Dgeev" -> <<"levjob", "revjob">>             \* 0 None 1 Compute
+      [] r = "Dtrcon" -> <<"norm2", "uplo", "diag">>       \* norm2: 0 MaxColumnSum 1 MaxRowSum
+      [] r = "Dgecon" -> <<"norm2">>
+      [] r = "Dlansy" -> <<"norm4", "uplo">>               \* norm4: 0 MaxAbs 1 MaxColumnSum 2 MaxRowSum 3 Frobenius
+      [] r = "Dlange" -> <<"norm4">>
+      [] r = "Dlantr" -> <<"norm4", "uplo", "diag">>
+      [] r = "Dlacpy" -> <<"uplo3">>                       \* 0 Upper 1 Lower 2 All
+      [] r = "Dlaset" -> <<"uploany">>                     \* any value is accepted (anything but Upper/Lower means the whole matrix)
+      [] r = "Dorgbr" -> <<"genortho">>                    \* 0 GenerateQ 1 GeneratePT
+      [] r = "Dormbr" -> <<"applyortho", "side", "trans2">>  \* 0 ApplyQ 1 ApplyP
+      [] r = "Dormhr" -> <<"side", "trans2">>
+      [] r = "Dtbtrs" -> <<"uplo", "trans3", "diag">>
       [] OTHER -> <<>>
-LegalCodes(kind) == IF kind = "trans3" THEN {0, 1, 2} ELSE {0, 1}
-AllCodes(kind)   == IF kind \in {"trans3", "trans2"} THEN {0, 1, 2, BadFlag} ELSE {0, 1, BadFlag}
+LegalCodes(kind) == CASE kind \in {"trans3", "svdjobu", "svdjobvt", "uplo3", "uploany"} -> {0, 1, 2}
+                      [] kind = "norm4" -> {0, 1, 2, 3}
+                      [] OTHER -> {0, 1}
+AllCodes(kind)   == CASE kind = "trans2" -> {0, 1, 2, BadFlag}
+                      [] kind = "uploany" -> {0, 1, 2}
+                      [] OTHER -> LegalCodes(kind) \cup {BadFlag}
 
 DimNames(r) ==
     CASE r \in {"Dgetrf", "Dgetf2"} \cup QRf -> <<"m", "n">>
@@ -60,6 +87,15 @@ DimNames(r) ==
       [] r \in OrgQ \cup OrmQ \cup {"Dlarfb"} -> <<"m", "n", "k">>
       [] r = "Dlarft" -> <<"n", "k">>
       [] r = "Dlarf" -> <<"m", "n">>
+      [] r = "Dgels" -> <<"m", "n", "nrhs">>
+      [] r \in GeMN -> <<"m", "n">>
+      [] r \in SqN -> <<"n">>
+      [] r \in Hess -> <<"n", "ilo", "ihi">>
+      [] r \in {"Dorgbr", "Dormbr"} -> <<"m", "n", "k">>
+      [] r = "Dormhr" -> <<"m", "n", "ilo", "ihi">>
+      [] r \in {"Dpbtrs", "Dtbtrs"} -> <<"n", "kd", "nrhs">>
+      [] r = "Dpbtrf" -> <<"n", "kd">>
+      [] r \in TriD -> <<"n", "nrhs">>
 
 \* flag lookups by kind (0 when the routine has no such flag)
 FlagOf(r, p, kind) ==
@@ -83,6 +119,16 @@ DimRange(r, p, i) ==
       [] r \in OrmQ /\ nm = "k" -> <<0, Nq(r, p)>>                               \* k <= order of Q
       [] r = "Dlarft" /\ nm = "k" -> <<1, IF Dim(r, p, "n") <= 0 THEN 99 ELSE Dim(r, p, "n")>>   \* 1 <= k (<= n)
       [] r = "Dlarfb" /\ nm = "k" -> <<0, Nq(r, p)>>                             \* k <= order of H
+      \* Hessenberg reduction: 0 <= ilo <= max(0, n-1), min(ilo, n-1) <= ihi <= n-1 (n = 0: ilo = 0, ihi = -1)
+      [] r = "Dgehrd" /\ nm = "ilo" -> <<0, Max(0, Dim(r, p, "n") - 1)>>
+      [] r = "Dorghr" /\ nm = "ilo" -> <<0, Max(1, Dim(r, p, "n")) - 1>>
+      [] r \in Hess /\ nm = "ihi" -> <<Min(Dim(r, p, "ilo"), Dim(r, p, "n") - 1), Dim(r, p, "n") - 1>>
+      [] r = "Dormhr" /\ nm = "ilo" -> <<0, Max(1, Nq(r, p)) - 1>>
+      [] r = "Dormhr" /\ nm = "ihi" -> <<Min(Dim(r, p, "ilo"), Nq(r, p) - 1), Nq(r, p) - 1>>
+      \* Dorgbr: Q is m x n with n <= m and n >= min(m,k); P^T is m x n with m <= n and m >= min(n,k)
+      [] r = "Dorgbr" /\ nm = "n" -> IF p.f[1] = 0 THEN <<0, Dim(r, p, "m")>> ELSE <<Max(0, Dim(r, p, "m")), 99>>
+      [] r = "Dorgbr" /\ nm = "k" -> IF Dim(r, p, "m") = Dim(r, p, "n") THEN <<0, 99>>
+                                     ELSE <<0, Min(Dim(r, p, "m"), Dim(r, p, "n"))>>
       [] OTHER -> <<0, 99>>
 
 (********************************* operands **********************************)
@@ -93,7 +139,14 @@ Mats(r) ==
       [] r = "Dlarft" -> <<"v", "t">>
       [] r = "Dlarfb" -> <<"v", "t", "c", "w">>      \* w: the work matrix with stride ldwork
       [] r = "Dlarf" -> <<"c">>
-\* <<rows, columns>> of a matrix operand
+      [] r \in {"Dgels", "Dlacpy", "Dpbtrs", "Dtbtrs"} -> <<"a", "b">>
+      [] r = "Dgesvd" -> <<"a", "u", "vt">>
+      [] r = "Dgeev" -> <<"a", "vl", "vr">>
+      [] r \in (SqN \ {"Dgeev"}) \cup Hess \cup (GeMN \ {"Dgesvd", "Dlacpy"}) \cup {"Dorgbr", "Dpbtrf"} -> <<"a">>
+      [] r \in {"Dormbr", "Dormhr"} -> <<"a", "c">>
+      [] r \in TriD -> <<"b">>
+\* <<rows, columns>> of a matrix operand (<<0, 0>>: not referenced for these job flags; a band matrix with kd
+\* off-diagonals is stored as n rows of kd+1 elements)
 MatDims(r, p, o) ==
     CASE r \in {"Dgetrf", "Dgetf2"} \cup QRf \cup OrgQ -> <<Dim(r, p, "m"), Dim(r, p, "n")>>
       [] r \in {"Dgetri", "Dpotrf", "Dpotf2", "Dpotri", "Dtrtri", "Dtrti2"} -> <<Dim(r, p, "n"), Dim(r, p, "n")>>
@@ -112,6 +165,29 @@ MatDims(r, p, o) ==
               [] o = "w" -> <<Nw(r, p), Dim(r, p, "k")>>
               [] o = "v" -> IF IsColW(r, p) THEN <<Nq(r, p), Dim(r, p, "k")>> ELSE <<Dim(r, p, "k"), Nq(r, p)>>)
       [] r = "Dlarf" -> <<Dim(r, p, "m"), Dim(r, p, "n")>>
+      \* Dgels: b holds the right-hand sides (m or n rows) on entry and the solutions (n or m rows) on return:
+      \* max(m,n) rows for both values of trans
+      [] r = "Dgels" -> IF o = "a" THEN <<Dim(r, p, "m"), Dim(r, p, "n")>>
+                        ELSE <<Max(Dim(r, p, "m"), Dim(r, p, "n")), Dim(r, p, "nrhs")>>
+      [] r = "Dgesvd" ->
+           (CASE o = "a" -> <<Dim(r, p, "m"), Dim(r, p, "n")>>
+              [] o = "u" -> IF p.f[1] = 0 THEN <<Dim(r, p, "m"), Dim(r, p, "m")>>
+                            ELSE IF p.f[1] = 1 THEN <<Dim(r, p, "m"), Mn(r, p)>> ELSE <<0, 0>>
+              [] o = "vt" -> IF p.f[2] = 0 THEN <<Dim(r, p, "n"), Dim(r, p, "n")>>
+                             ELSE IF p.f[2] = 1 THEN <<Mn(r, p), Dim(r, p, "n")>> ELSE <<0, 0>>)
+      [] r = "Dgeev" ->
+           (CASE o = "a" -> <<Dim(r, p, "n"), Dim(r, p, "n")>>
+              [] o = "vl" -> IF p.f[1] = 1 THEN <<Dim(r, p, "n"), Dim(r, p, "n")>> ELSE <<0, 0>>
+              [] o = "vr" -> IF p.f[2] = 1 THEN <<Dim(r, p, "n"), Dim(r, p, "n")>> ELSE <<0, 0>>)
+      [] r \in (SqN \ {"Dgeev"}) \cup Hess -> <<Dim(r, p, "n"), Dim(r, p, "n")>>
+      [] r \in (GeMN \ {"Dgesvd"}) \cup {"Dorgbr"} -> <<Dim(r, p, "m"), Dim(r, p, "n")>>
+      [] r = "Dormbr" ->
+           IF o = "c" THEN <<Dim(r, p, "m"), Dim(r, p, "n")>>
+           ELSE IF p.f[1] = 0 THEN <<Nq(r, p), Min(Nq(r, p), Dim(r, p, "k"))>>
+           ELSE <<Min(Nq(r, p), Dim(r, p, "k")), Nq(r, p)>>
+      [] r = "Dormhr" -> IF o = "c" THEN <<Dim(r, p, "m"), Dim(r, p, "n")>> ELSE <<Nq(r, p), Nq(r, p)>>
+      [] r \in BandS -> IF o = "a" THEN <<Dim(r, p, "n"), Dim(r, p, "kd") + 1>> ELSE <<Dim(r, p, "n"), Dim(r, p, "nrhs")>>
+      [] r \in TriD -> <<Dim(r, p, "n"), Dim(r, p, "nrhs")>>
 MatDesc(r, p, o) == LET rc == MatDims(r, p, o) IN Desc("ge", rc[1], rc[2], p.ld[o], 0, 0, 0, 0)
 
 \* float vectors (other than a workspace governed by lwork) and their documented minimum length
@@ -120,26 +196,73 @@ Vecs(r) ==
       [] r \in {"Dgeqr2", "Dgelq2", "Dorg2r", "Dorgl2", "Dorm2r", "Dorml2"} -> <<"tau", "work">>
       [] r = "Dlarft" -> <<"tau">>
       [] r = "Dlarf" -> <<"x", "work">>             \* x: the reflector vector v with increment incv
+      [] r = "Dgesvd" -> <<"s">>
+      [] r = "Dsyev" -> <<"w">>
+      [] r = "Dsytrd" -> <<"d", "e", "tau">>
+      [] r \in {"Dorgtr", "Dgehrd", "Dorghr", "Dgeqp3", "Dorgbr", "Dormbr", "Dormhr"} -> <<"tau">>
+      [] r = "Dgeev" -> <<"wr", "wi">>
+      [] r = "Dgebrd" -> <<"d", "e", "tauq", "taup">>
+      [] r \in {"Dlange", "Dlansy", "Dlantr", "Dtrcon", "Dgecon", "Dpocon"} -> <<"work">>
+      [] r = "Dgtsv" -> <<"dl", "d", "du">>
+      [] r = "Dptsv" -> <<"d", "e">>
       [] OTHER -> <<>>
+\* documented minimum lengths of the routines in Drv (job flags and min/max of the dimensions matter)
+VecMinDrv(r, p, o) ==
+    LET n == Dim(r, p, "n") IN
+    CASE r = "Dgesvd" -> Mn(r, p)
+      [] r = "Dsyev" -> n
+      [] r = "Dsytrd" -> IF o = "d" THEN n ELSE n - 1
+      [] r \in {"Dorgtr", "Dgehrd", "Dorghr"} -> n - 1
+      [] r = "Dgeev" -> n
+      [] r = "Dgeqp3" -> Mn(r, p)
+      [] r = "Dgebrd" -> IF o = "e" THEN Mn(r, p) - 1 ELSE Mn(r, p)
+      [] r = "Dorgbr" -> IF p.f[1] = 0 THEN Min(Dim(r, p, "m"), Dim(r, p, "k")) ELSE Min(n, Dim(r, p, "k"))
+      [] r = "Dormbr" -> Min(Nq(r, p), Dim(r, p, "k"))
+      [] r = "Dormhr" -> Nq(r, p) - 1
+      [] r = "Dlange" -> IF p.f[1] = 1 THEN n ELSE 0                 \* work only for the maximum column sum
+      [] r = "Dlansy" -> IF p.f[1] \in {1, 2} THEN n ELSE 0
+      [] r = "Dlantr" -> IF p.f[1] = 1 THEN n ELSE 0
+      [] r \in {"Dtrcon", "Dpocon"} -> 3 * n
+      [] r = "Dgecon" -> 4 * n
+      [] r = "Dgtsv" -> IF o = "d" THEN n ELSE n - 1
+      [] r = "Dptsv" -> IF o = "d" THEN n ELSE n - 1
 VecMin(r, p, o) ==
-    CASE o = "tau" -> IF r \in QRf THEN Mn(r, p) ELSE Dim(r, p, "k")
+    CASE r \in Drv -> VecMinDrv(r, p, o)
+      [] o = "tau" -> IF r \in QRf THEN Mn(r, p) ELSE Dim(r, p, "k")
       [] o = "work" ->
            (CASE r \in {"Dgeqr2", "Dorg2r"} -> Dim(r, p, "n")
               [] r \in {"Dgelq2", "Dorgl2"} -> Dim(r, p, "m")
               [] r \in {"Dorm2r", "Dorml2", "Dlarf"} -> Nw(r, p))
       [] o = "x" -> VecNeed(Nq(r, p), p.inc)
-IVecs(r) == IF r \in LU THEN <<"ipiv">> ELSE <<>>
+IVecs(r) == IF r \in LU THEN <<"ipiv">> ELSE IF r = "Dgeqp3" THEN <<"jpvt">>
+            ELSE IF r \in {"Dtrcon", "Dgecon", "Dpocon"} THEN <<"iwork">> ELSE <<>>
 IVecMin(r, p, o) == IF r \in {"Dgetrf", "Dgetf2"} THEN Mn(r, p) ELSE Dim(r, p, "n")
+\* vectors whose length the documentation fixes exactly
+ExactNames == {"tau", "wr", "wi"}
 \* vectors whose length the documentation fixes exactly ("must have length k"): a longer slice is
 \* rejected by some routines and accepted by others - both are legal
 HasInc(r) == r = "Dlarf"
 
-HasLwork(r) == r \in {"Dgetri", "Dgeqrf", "Dgelqf", "Dorgqr", "Dorglq", "Dormqr", "Dormlq"}
+HasLwork(r) == r \in {"Dgetri", "Dgeqrf", "Dgelqf", "Dorgqr", "Dorglq", "Dormqr", "Dormlq",
+                      "Dgels", "Dgesvd", "Dsyev", "Dsytrd", "Dorgtr", "Dgehrd", "Dorghr", "Dgeev", "Dgeqp3", "Dgebrd",
+                      "Dorgbr", "Dormbr", "Dormhr"}
 MinLwork(r, p) ==
     CASE r = "Dgetri" -> Max(1, Dim(r, p, "n"))
       [] r \in {"Dgeqrf", "Dorgqr"} -> Max(1, Dim(r, p, "n"))
       [] r \in {"Dgelqf", "Dorglq"} -> Max(1, Dim(r, p, "m"))
-      [] r \in {"Dormqr", "Dormlq"} -> Max(1, Nw(r, p))
+      [] r \in {"Dormqr", "Dormlq", "Dormbr", "Dormhr"} -> Max(1, Nw(r, p))
+      [] r = "Dgels" -> Max(1, Mn(r, p) + Max(Mn(r, p), Dim(r, p, "nrhs")))
+      [] r = "Dgesvd" -> IF Mn(r, p) <= 0 THEN 1
+                         ELSE Max(3 * Mn(r, p) + Max(Dim(r, p, "m"), Dim(r, p, "n")), 5 * Mn(r, p))
+      [] r = "Dsyev" -> Max(1, 3 * Dim(r, p, "n") - 1)
+      [] r = "Dsytrd" -> 1
+      [] r = "Dorgtr" -> Max(1, Dim(r, p, "n") - 1)
+      [] r = "Dgehrd" -> Max(1, Dim(r, p, "n"))
+      [] r = "Dorghr" -> Max(1, Dim(r, p, "ihi") - Dim(r, p, "ilo"))
+      [] r = "Dgeev" -> Max(1, (IF p.f[1] = 1 \/ p.f[2] = 1 THEN 4 ELSE 3) * Dim(r, p, "n"))
+      [] r = "Dgeqp3" -> IF Mn(r, p) <= 0 THEN 1 ELSE 3 * Dim(r, p, "n") + 1
+      [] r = "Dgebrd" -> Max(1, Max(Dim(r, p, "m"), Dim(r, p, "n")))
+      [] r = "Dorgbr" -> Max(1, Mn(r, p))
 
 \* documented quick returns: nothing is addressed
 ZeroL(r, p) ==
@@ -150,6 +273,12 @@ ZeroL(r, p) ==
       [] r \in {"Dorglq", "Dorgl2"} -> Dim(r, p, "m") = 0
       [] r \in OrmQ -> Dim(r, p, "m") = 0 \/ Dim(r, p, "n") = 0 \/ Dim(r, p, "k") = 0
       [] r \in {"Dlarfb", "Dlarf"} -> Dim(r, p, "m") = 0 \/ Dim(r, p, "n") = 0
+      [] r = "Dgels" -> Mn(r, p) = 0 \/ Dim(r, p, "nrhs") = 0
+      [] r \in {"Dgesvd", "Dgeqp3", "Dgebrd", "Dlaset", "Dlantr"} -> Mn(r, p) = 0
+      [] r \in {"Dlacpy", "Dlange", "Dorgbr", "Dormbr"} -> Dim(r, p, "m") = 0 \/ Dim(r, p, "n") = 0
+      [] r = "Dormhr" -> Dim(r, p, "m") = 0 \/ Dim(r, p, "n") = 0 \/ Dim(r, p, "ihi") = Dim(r, p, "ilo")
+      [] r \in SqN \cup Hess \cup {"Dpbtrf", "Dtbtrs", "Dptsv"} -> Dim(r, p, "n") = 0
+      [] r \in {"Dpbtrs", "Dgtsv"} -> Dim(r, p, "n") = 0 \/ Dim(r, p, "nrhs") = 0
 IsQuery(r, p) == HasLwork(r) /\ p.lwork = -1
 
 (********************************** clauses **********************************)
@@ -198,7 +327,7 @@ Soft(r, p) ==
                        \cup {oo \in SeqToSet(Vecs(r)) : lenOf(oo) < VecMin(r, p, oo)}
                        \cup {oo \in SeqToSet(IVecs(r)) : lenOf(oo) < IVecMin(r, p, oo)}}
         longExact == {"len(" \o o \o ")>" : o \in
-                       {oo \in SeqToSet(Vecs(r)) \cap {"tau"} : lenOf(oo) > VecMin(r, p, oo)}
+                       {oo \in SeqToSet(Vecs(r)) \cap ExactNames : lenOf(oo) > VecMin(r, p, oo)}
                        \cup {oo \in SeqToSet(IVecs(r)) : lenOf(oo) > IVecMin(r, p, oo)}}
     IN IF ~shapeButLd THEN {}
        ELSE (IF ShapeOK(r, p) THEN (shortAny \ ShortClauses(r, p)) \cup (IF ZeroL(r, p) \/ IsQuery(r, p) THEN {} ELSE longExact)
@@ -213,16 +342,20 @@ Expected(r, p) ==
     THEN (IF QueryLax(r, p) THEN "EITHER" ELSE "PANIC")
     ELSE IF Soft(r, p) # {} THEN "EITHER" ELSE "OK"
 \* a legal call that must not change any operand (apart from work[0] of routines with lwork)
-NoWriteOK(r, p) == Hard(r, p) = {} /\ (ZeroL(r, p) \/ IsQuery(r, p))
+\* (Dgels with an empty A sets the solution block of b to zero)
+NoWriteOK(r, p) == Hard(r, p) = {} /\ (IsQuery(r, p) \/ (ZeroL(r, p) /\ r # "Dgels"))
 
 \* clauses that cannot be the only violated one (a negative m forces n > m, ...)
-NeverSole(r) == IF r \in {"Dorgqr", "Dorg2r"} THEN {"m<lo", "n<lo"} ELSE IF r \in {"Dorglq", "Dorgl2"} THEN {"m<lo"} ELSE {}
+NeverSole(r) == IF r \in {"Dorgqr", "Dorg2r"} THEN {"m<lo", "n<lo"} ELSE IF r \in {"Dorglq", "Dorgl2"} THEN {"m<lo"}
+                ELSE IF r \in Hess THEN {"n<lo"} ELSE IF r = "Dorgbr" THEN {"m<lo", "n<lo"} ELSE {}
 ClausesOf(r) ==
-    (SeqToSet(FlagKinds(r))
+    ((SeqToSet(FlagKinds(r)) \ {"uploany"})
     \cup ({DimNames(r)[i] \o "<lo" : i \in 1 .. Len(DimNames(r))} \ NeverSole(r)))
     \cup {DimNames(r)[i] \o ">hi" : i \in {j \in 1 .. Len(DimNames(r)) :
             (r \in {"Dorgqr", "Dorg2r"} /\ DimNames(r)[j] \in {"n", "k"})
-            \/ (r \in {"Dorglq", "Dorgl2"} /\ DimNames(r)[j] = "k") \/ (r \in OrmQ /\ DimNames(r)[j] = "k")}}
+            \/ (r \in {"Dorglq", "Dorgl2"} /\ DimNames(r)[j] = "k") \/ (r \in OrmQ /\ DimNames(r)[j] = "k")
+            \/ (r \in Hess \cup {"Dormhr"} /\ DimNames(r)[j] \in {"ilo", "ihi"})
+            \/ (r = "Dorgbr" /\ DimNames(r)[j] \in {"n", "k"})}}
     \cup {"ld" \o o : o \in SeqToSet(Mats(r))}
     \cup {c \in {"inc=0"} : HasInc(r)}
     \cup {c \in {"lwork", "len(work)"} : HasLwork(r)}
